@@ -67,10 +67,76 @@ def _method_guard_members(fi: FunctionInfo, vocab: tuple[str, ...]) -> tuple[set
     return members, t
 
 
+
+def _state_codec(ctx: Ctx) -> None:
+    """HTTP serialises stream state (and dataclass parameters) on every turn while the pipe keeps the
+    object in memory, so the codec must not change a value: in particular a field that is present
+    with a null value must not be replaced by the field's default (only an *absent* column may be)."""
+    from ..util import Obj, _eval_x
+
+    fi = ctx.fn("vgi_rpc/utils.py:ArrowSerializableDataclass.deserialize_from_batch")
+    cfg = cfg_of(fi.node)
+    loops = [n for n in walk_scope(fi.node) if isinstance(n, ast.For)]
+    lp = one(loops, "field loop in deserialize_from_batch", fi)
+    if not isinstance(lp.target, ast.Name):
+        raise AnalysisError("C01: unsupported field loop target")
+    plan_var = lp.target.id
+    defs = {n.targets[0].id: n.value for n in walk_scope(lp) if isinstance(n, ast.Assign) and len(n.targets) == 1 and isinstance(n.targets[0], ast.Name)}
+    sites = []
+    for n in walk_scope(lp):
+        if isinstance(n, ast.Assign) and any(isinstance(t, ast.Subscript) for t in n.targets):
+            v = n.value
+            uses_default = any(isinstance(a, ast.Attribute) and a.attr in ("default", "default_factory") for a in ast.walk(v)) or (isinstance(v, ast.Call) and isinstance(v.func, ast.Name) and v.func.id in defs and "default_factory" in txt(defs[v.func.id]))
+            if uses_default:
+                sites.append(n)
+    ctx.require_count("RF-ABS", len(sites), 2, "default-substitution sites in deserialize_from_batch")
+    missing = Obj()
+    bad = []
+    for has_default, has_factory in ((True, False), (False, True)):
+        plan = Obj(name="f", transient=False, default=("D" if has_default else missing), default_factory=((lambda: "F") if has_factory else missing), unwrapped_type=int)
+        base_env: dict[str, object] = {plan_var: plan, "MISSING": missing, "row": {"f": None}}
+        for site in sites:
+            env = dict(base_env)
+            reachable = True
+            cur: ast.AST | None = cfg.parent.get(id(site))
+            chain = []
+            child: ast.AST = site
+            while cur is not None and cur is not lp:
+                if isinstance(cur, ast.If):
+                    chain.append((cur, in_body(cfg, child, cur, "body")))
+                child = cur
+                cur = cfg.parent.get(id(cur))
+            for iff, in_true in reversed(chain):
+                # resolve locals used by the test through their single definition inside the loop
+                def resolve(nm: str, depth: int = 0) -> None:
+                    if nm in env or nm not in defs or depth > 4:
+                        return
+                    for inner in names_in(defs[nm]):
+                        resolve(inner, depth + 1)
+                    try:
+                        env[nm] = _eval_x(defs[nm], env, {})
+                    except AnalysisError:
+                        pass
+
+                for nm in names_in(iff.test):
+                    resolve(nm)
+                val = bool(_eval_x(iff.test, env, {}))
+                if val != in_true:
+                    reachable = False
+                    break
+            if reachable:
+                bad.append(site)
+    ctx.check(not bad, "RF-ABS", "state-codec:present-null-not-replaced-by-default", fi, bad[0] if bad else sites[0],
+              ok="a field present with a null value is decoded as null; defaults are used only for absent columns / transient fields",
+              bad="a field that is present with a null value is replaced by its default when decoded: stream state and dataclass parameters that cross HTTP (serialised every turn) "
+                  "come back changed while the same program over a pipe keeps the in-memory value — observable behaviour differs between transports")
+
+
 def run(ctx: Ctx) -> None:
     ctx.explanation = META["text"]
     ctx.not_decided = "equality of observed traces for arbitrary services, values, caps, codecs and thresholds (runtime quantities); the shm and subprocess variants share the pipe code path."
     model = ExcModel(ctx.repo, ctx.res)
+    _state_codec(ctx)
     so, su, ss = ctx.fn(SERVE_ONE), ctx.fn(SERVE_UNARY), ctx.fn(SERVE_STREAM)
     hu, hi = ctx.fn(HTTP_UNARY), ctx.fn(HTTP_INIT)
     et, pt = ctx.fn(EXCH_TURN), ctx.fn(PROD_TURN)
